@@ -171,6 +171,15 @@ def _w_unlink(path, *a, **kw):
     wk.event("unlink", path=p, err=None)
     return r
 
+def _w_mkdir(path, *a, **kw):
+    wk = cur()
+    p = _s(path)
+    if wk is not None and not wk.quiet() and p is not None and kw.get("dir_fd") is None and wk.project is not None:
+        store = wk.project.world.store
+        if p.startswith(store + "/") and "/tmp" not in p[len(store):]:
+            wk.point("mkdir", path=p)
+    return _real["mkdir"](path, *a, **kw)
+
 def _mk_coarse(name, evname):
     def w(path, *a, **kw):
         wk = cur()
@@ -228,13 +237,14 @@ def install_wrappers():
         return
     import bob.share, bob.builder, builtins
     _real.update(flock=fcntl.flock, rename=os.rename, replace=os.replace, link=os.link, symlink=os.symlink,
-                 unlink=os.unlink, rmtree=shutil.rmtree, removePath=bob.builder.removePath, open=builtins.open,
+                 unlink=os.unlink, mkdir=os.mkdir, rmtree=shutil.rmtree, removePath=bob.builder.removePath, open=builtins.open,
                  gc=bob.share.LocalShare.gc, BobState=bob.builder.BobState, stepMessage=bob.builder.stepMessage,
                  stepAction=bob.builder.stepAction, w1=bob.share.warnRepoSize, w2=bob.share.warnGcDidNotHelp,
                  w3=bob.share.warnEscapedHardLink)
     fcntl.flock = _w_flock
     os.rename = _mk2("rename"); os.replace = _mk2("replace"); os.link = _mk2("link"); os.symlink = _mk2("symlink")
     os.unlink = _w_unlink
+    os.mkdir = _w_mkdir
     shutil.rmtree = _mk_coarse("rmtree", "rmtree")
     bob.builder.removePath = _mk_coarse("removePath", "removePath")
     bob.share.open = _w_open
@@ -254,6 +264,7 @@ def uninstall_wrappers():
     fcntl.flock = _real["flock"]
     os.rename = _real["rename"]; os.replace = _real["replace"]; os.link = _real["link"]; os.symlink = _real["symlink"]
     os.unlink = _real["unlink"]
+    os.mkdir = _real["mkdir"]
     shutil.rmtree = _real["rmtree"]
     bob.builder.removePath = _real["removePath"]
     del bob.share.open
@@ -546,6 +557,11 @@ class Project:
             wk.nest -= 1
         self.state.setResultHash(w, h)
         self.state.setInputHashes(w, [p.bid])
+        if len(op) > 3 and op[3] == 1:
+            # something changes the workspace after Bob hashed it (a stray process, an incompatible file system)
+            res["tampered"] = True
+            with _real["open"](os.path.join(w, "zz-tampered"), "w") as f:
+                f.write("x")
         wk.point("built", W=w)
         n0 = len(self.spy.log)
         step = self.step(k, p)
@@ -616,6 +632,7 @@ class Monitor:
         self.stats = collections.Counter()
         self.norepo_at_enter = {}
         self.bad_read = {}
+        self.use_lock_evno = {}      # prep op index -> event number at which its useSharedPackage locked pkg.json
         self.api_installed = {}      # op index -> what installSharedPackage returned (known before the op is done)
         self.paused = {}             # conc modes: wid -> (point kind, info) of the workers that are paused right now
 
@@ -732,7 +749,9 @@ class Monitor:
                     self.bad_read[wid] = cause
             except OSError:
                 pass
-        if info["ex"] and os.path.basename(info["path"]) == "repo.json" and wid in self.gcs and self.gcs[wid]["snap"] is None:
+        if info["ex"] and os.path.basename(info["path"]) == "pkg.json" and (self.cur.get(wid) or {}).get("op", [""])[0] == "prep":
+            self.use_lock_evno[self.cur[wid]["i"]] = self.evno
+        if os.path.basename(info["path"]) == "repo.json" and wid in self.gcs and self.gcs[wid]["snap"] is None:
             self.gcs[wid]["snap"] = self.snap()
             self.gcs[wid]["evno"] = self.evno
             for (pr, sl), b in self.building.items():
@@ -782,13 +801,19 @@ class Monitor:
             self.linkgen[dst] += 1
             tgt = os.path.dirname(info["src"])
             p = self.pkg_of(tgt)
+            if p is not None:
+                for rec in self.gcs.values():        # used/unused changes while a gc is between lock and scan
+                    if rec["snap"] is not None: rec["touched"].add(p.hex)
             self.linkinfo[dst] = {"gen": self.linkgen[dst], "op": self.cur.get(wid, {}).get("i"), "bid": p.hex if p else None,
                                   "inc": self.inc[p.hex] if p else None, "target_exists": os.path.isdir(info["src"])}
 
     def _dropped(self, path):
         if path in self.w.slots:
             self.linkgen[path] += 1
-            self.linkinfo.pop(path, None)
+            li = self.linkinfo.pop(path, None)
+            if li and li.get("bid"):
+                for rec in self.gcs.values():
+                    if rec["snap"] is not None: rec["touched"].add(li["bid"])
     def ev_unlink(self, wid, info): self._dropped(info["path"])
     def ev_removePath(self, wid, info): self._dropped(info["path"])
     def ev_slot_dropped(self, wid, info): self._dropped(info["path"])
@@ -801,7 +826,7 @@ class Monitor:
 
     def ev_gc_enter(self, wid, info):
         self.norepo_at_enter[wid] = os.path.isdir(self.w.store) and not os.path.exists(os.path.join(self.w.store, "repo.json"))
-        self.gcs[wid] = {"args": info, "snap": None, "victims": [], "op": self.cur.get(wid, {}).get("i")}
+        self.gcs[wid] = {"args": info, "snap": None, "victims": [], "touched": set(), "op": self.cur.get(wid, {}).get("i")}
 
     def ev_gc_exit(self, wid, info):
         rec = self.gcs.pop(wid, None)
@@ -848,6 +873,12 @@ class Monitor:
                 e = pk[v["bid"]]
                 for W, gen in v["now_users"].items():
                     if e["link_users"].get(W) != gen:
+                        li = v["linkinfo"].get(W) or {}
+                        if self.use_lock_evno.get(li.get("op"), 0) > rec.get("evno", 0):
+                            self.fail("use-overlapped-gc", "%s -> %s was registered (op #%s locked pkg.json) and linked while the gc "
+                                      "held its repository lock, then the gc collected the package; %s" %
+                                      (self.short(W), name(v["bid"]), li.get("op"), where))
+                            return
                         self.labels.add("info_use_window")
                         continue
                     if used:
@@ -873,6 +904,11 @@ class Monitor:
                                   (who, li.get("op"), org.get("kind") or "in progress", e.get("users"), where))
                         return
         size = snap["total"]
+        touched = rec.get("touched") or set()
+        if touched:
+            # a link to these packages appeared/vanished after gc took its lock: Bob may have seen either state
+            self.labels.add("gc-judgement-relaxed-link-changed-during-gc")
+            unused = (unused - touched) | (set(victims) & touched - {new})
         if not used:
             bad = [v for v in victims if v not in unused]
             if bad:
@@ -959,6 +995,10 @@ class Monitor:
                               "and unlocked in between\n%s" % (i, self.op_text(r), e["type"], self.short_msg(e["msg"]), self.short(br[2]),
                                                                br[1], e["tb"][-300:]))
                     return
+            if kind == "fin" and r.get("tampered") and e["builderror"] and "hash changed" in e["msg"]:
+                self.labels.add("install-refused-changed-content")      # the documented refusal
+                self.building.pop((r["proj"], r["slot"]), None)
+                return
             head = self.short_msg(e["msg"]).split(":")[0][:40] if e["builderror"] else ""
             self.fail("%s-raised-%s%s" % (opname, e["type"], (":" + head) if head else ""),
                       "op #%d %r raised %s: %s\n%s" % (i, self.op_text(r), e["type"], self.short_msg(e["msg"]), e["tb"]))
@@ -1245,6 +1285,10 @@ def _recv(fd):
     (n,) = struct.unpack("=L", rd(4))
     return pickle.loads(rd(n))
 
+# events whose handler inspects files that the reporting worker itself changes before its next point; all other
+# events are sent without waiting (the parent handles them, in order, before it looks at the worker's next point)
+SYNC_EVENTS = ("locked", "pre-rename")
+
 class ForkCtx(WorkerCtx):
     """runs inside the forked worker"""
     def __init__(self, wid, rfd, wfd):
@@ -1261,7 +1305,8 @@ class ForkCtx(WorkerCtx):
         if self.aborted:
             return
         _send(self.wfd, (self.wid, "event", kind, info))
-        _recv(self.rfd)
+        if kind in SYNC_EVENTS:
+            _recv(self.rfd)
     def finish(self, crash=None):
         _send(self.wfd, (self.wid, "done", crash, None))
 
@@ -1342,7 +1387,8 @@ class Sched:
                 wid, typ, a, b = tr.recv()
                 if typ == "event":
                     mon.on_event(wid, a, b)
-                    tr.answer(wid, "ok")
+                    if a in SYNC_EVENTS:
+                        tr.answer(wid, "ok")
                 elif typ == "point":
                     blocked[wid] = (a, b)
                     running.discard(wid)
@@ -1635,7 +1681,7 @@ def check(ctx, case):
 
 # --------------------------------------------------------------------------------------- strategies
 NAMES = ["a", "b", "c", "Dd", "e.txt"]
-SIZES = [0, 1, 7, 300, 5000, 20000]
+SIZES = [0, 1, 7, 300, 700, 1500, 5000]
 file_st = st.tuples(st.integers(0, 255), st.sampled_from(SIZES), st.integers(0, 3))
 def _nodes(d, depth):
     out = []
@@ -1666,7 +1712,7 @@ def ops_st(conc):
     """elements are short op sequences (flattened afterwards): single ops, need = prep+fin, race = two projects
     prepare the same package before either finishes"""
     prep = st.tuples(st.just("prep"), I, SL, I).map(lambda t: [list(t)])
-    fin = st.tuples(st.just("fin"), I, I).map(lambda t: [list(t)])
+    fin = st.tuples(st.just("fin"), I, I, st.sampled_from([0, 0, 0, 0, 0, 1])).map(lambda t: [list(t)])
     unuse = st.tuples(st.just("unuse"), I, SL).map(lambda t: [list(t)])
     gc = st.one_of(st.tuples(st.just("gc"), I, st.just(False), st.just(False), B),
                    st.tuples(st.just("gc"), I, st.just(False), B, st.just(False)),
@@ -1675,13 +1721,19 @@ def ops_st(conc):
     race = st.tuples(I, st.integers(1, 3), SL, SL, I, gc | st.just([]), B).map(
         lambda t: [["prep", t[0], t[2], t[4]], ["prep", t[0] + t[1], t[3], t[4]]] + t[5] +
                   ([["fin", t[0], 0], ["fin", t[0] + t[1], 0]] if t[6] else [["fin", t[0] + t[1], 0], ["fin", t[0], 0]]))
-    alts = [prep, prep, fin, fin, need, need, need, race, race, unuse, unuse, gc, gc, gc]
+    churn = st.tuples(I, SL, I).map(lambda t: [["prep", t[0], t[1], t[2]], ["fin", t[0], 0], ["unuse", t[0], t[1]]])
+    # usage history: several packages installed and dropped, some used again later (refreshes their age), then a gc
+    touch = st.tuples(I, SL, I).map(lambda t: [["prep", t[0], t[1], t[2]], ["unuse", t[0], t[1]]])
+    lru = st.tuples(st.lists(churn, min_size=2, max_size=4), st.lists(touch, max_size=2),
+                    st.tuples(st.just("gc"), I, st.just(False), st.just(False), B).map(lambda t: [list(t)]) | need).map(
+        lambda t: [op for l in t[0] for op in l] + [op for l in t[1] for op in l] + t[2])
+    alts = [prep, prep, fin, fin, need, need, need, race, race, churn, churn, lru, lru, unuse, unuse, gc, gc, gc]
     if conc:
         alts.append(st.just([["sync"]]))
     return st.one_of(alts)
 
 def history_st(conc, quick):
-    mx = (10 if conc else 14) if quick else 18
+    mx = (14 if conc else 22) if quick else 26
     return st.lists(ops_st(conc), min_size=2, max_size=7 if quick else 10).map(lambda ll: [op for l in ll for op in l][:mx])
 
 def case_st(mode, quick):
@@ -1692,17 +1744,17 @@ def case_st(mode, quick):
             "nproj": st.integers(2, 3 if conc else 4),
             "quota": st.sampled_from([None, None, 1, 2, 3, 4, 6, 8, 12]),
             "quota_form": st.integers(0, 1),
-            "autoClean": st.sampled_from([True, True, False]),
+            "autoClean": st.sampled_from([True, False]),
             "start": st.sampled_from(["empty", "empty", "missing"]),
-            "modes": st.lists(st.sampled_from([[True, True]] * 6 + [[True, False], [False, True]]), min_size=0, max_size=4),
+            "modes": st.lists(st.sampled_from([[True, True]] * 5 + [[True, False], [False, True], [False, True]]), min_size=0, max_size=4),
         }),
-        "pkgs": st.lists(tree_st, min_size=1, max_size=3),
+        "pkgs": st.lists(tree_st, min_size=1, max_size=4),
         "history": history_st(conc, quick),
         "schedule": (st.lists(st.tuples(st.integers(0, 5), st.sampled_from([1, 1, 2, 2, 3, 4, 5, 7, 10, 15, 25, 60])).map(list),
                               min_size=0, max_size=40) if conc else st.just([])),
     })
 
-LAYERS = [("seq", 0.30, ("history",)), ("thr", 0.52, ("history", "schedule")), ("fork", 0.18, ("history", "schedule"))]
+LAYERS = [("seq", 0.30, ("history",), 50), ("thr", 0.52, ("history", "schedule"), 30), ("fork", 0.18, ("history", "schedule"), 3)]
 
 def shard(ctx):
     import bob.builder, bob.share  # noqa (warm)
@@ -1710,7 +1762,8 @@ def shard(ctx):
     overall = ctx.deadline
     total = overall - time.time()
     t = time.time()
-    for mode, frac, mini in LAYERS:
+    for mode, frac, mini, batch in LAYERS:
+        globals()["BATCH"] = batch
         t += total * frac
         ctx.deadline = min(overall, t)
         run_hypothesis(ctx, case_st(mode, q), lambda c: check(ctx, c), ctx.n(10**6, 10**7), shrink=False, minimize=mini, salt=mode)
